@@ -149,5 +149,19 @@ CLAIMS["C03"] = {
     "technique": "dispatch totality against the library model + stack-shape analysis + per-iteration effect analysis of emission loops",
     "ref": "DESIGN.md section 5 C03",
 }
+CLAIMS["C04"] = {
+    "text": "Decides the structural conditions of 'private never leaks': every emission loop (module functions, classes, inner "
+            "classes, attributes, methods, inner classes of inlined bases) produces no text and no emitter call for an element "
+            "with is_public=False; is_public of every Class/Function/Attribute is the publicity decision for that element's own "
+            "name; the decision table of _is_public over name form x parent kind x parent publicity x path publicity x "
+            "re-export verdict (60 cells) equals the reference of the property; every path on which a re-export makes a "
+            "declaration public established a public name or public alias, the right package or key, and (by-name) that the "
+            "import names the declaration; no memo cache in the visitor is under-keyed. Known findings: enums have no "
+            "publicity at all. The suffix-matching heuristics of re-export recognition are decided only through these "
+            "necessary conditions, not as a whole.",
+    "note": TRUST,
+    "technique": "per-iteration effect analysis of emission loops + decision-table extraction + path-fact conditions",
+    "ref": "DESIGN.md section 5 C04",
+}
 
 NOT_APPLICABLE = {}
